@@ -137,8 +137,11 @@ def run(case, tape=None):
             grad = ([0, 2, 1], [int(l1d.starts[0]), 0, 0], [int(l1d.ends[0]), npts[2], npts[1]],
                     np.array(pipe.parGradVals, copy=True))
             dtk = dt * case.get('dt2_factor', 1)
+            kept = np.array(pipe.parGradVals, copy=True)
             pipe.vParAdv.gridStepKeepGradient(f, pipe.parGradVals, dtk)
             two = phys.block(f)
+            if not cm.bits_equal(np.asarray(pipe.parGradVals), kept):
+                raise OracleFail('gradient-differs', dict(rank=rank, why='the kept gradient table was modified by the step that uses it'))
             three = None
             if case.get('again'):
                 # the same objects used for the next step with a new potential: nothing of the previous
